@@ -105,6 +105,8 @@ def comp_block(c):
     if comp in ("gspath", "gzpath", "aspath", "azpath"):
         for k, f in enumerate(p["files"]):
             s.append("    refPositionsFile%d %s" % (k + 1, f))
+        if p.get("lambda") is not None:
+            s.append("    lambda " + g17(p["lambda"]))
     if comp == "rmsd" and p.get("reffile"):
         s.append("    refPositionsFile " + p["reffile"])
     if comp == "rmsd":
